@@ -21,7 +21,8 @@ type JApi struct {
 func NewJapi(filepath string, oo ...core.Option) (JApi, *jerr.JApiError) {
 	f, err := readPanicFree(filepath)
 	if err != nil {
-		return JApi{}, jerr.NewJApiError(err.Error(), f, 0)
+		// There is no file content the error could be located in.
+		return JApi{}, jerr.NewJApiError(err.Error(), fs.NewFile(filepath, []byte{}), 0)
 	}
 	return NewJApiFromFile(f, oo...)
 }
